@@ -64,12 +64,18 @@ def run(ctx):
             okn = off == Aff(0) and ln == want
     ctx.ob("C08.payload-offsets", okn, "the stored NULL bitmap is not payload[0 .. (params+7)/8)", fn=nxt.path, construct="nullmap-slice")
     nb = 0
+    seen_tests = set()
     col = Aff(0, {("path", "self", "col"): 1})
     for bb in range(nxt.n):
         t = nxt.term(bb)
         if t["k"] != "switch" or nxt.is_cleanup(bb):
             continue
         v = nxt.origin_op(t["discr"], bb, len(nxt.blocks[bb]["stmts"]))
+        # the test may sit under wrappers when it was computed by a helper (`Some(test)?`, a merged return value)
+        v = T.find(v, lambda x: isinstance(x, tuple) and x[0] == "bin" and x[1] in ("Ne", "Eq") and T.is_const_int(x[3], 0) and isinstance(x[2], tuple) and x[2][0] == "bin" and x[2][1] == "BitAnd")
+        if v is not None and v in seen_tests:
+            continue
+        seen_tests.add(v)
         if isinstance(v, tuple) and v[0] == "bin" and v[1] in ("Ne", "Eq") and T.is_const_int(v[3], 0) and isinstance(v[2], tuple) and v[2][0] == "bin" and v[2][1] == "BitAnd":
             a, b = v[2][2], v[2][3]
             if not (isinstance(a, tuple) and a[0] == "index"):
